@@ -558,3 +558,86 @@ func directCallSites(p *Program, f *ssa.Function) (calls []ssa.CallInstruction, 
 	sort.Slice(calls, func(i, j int) bool { return calls[i].Pos() < calls[j].Pos() })
 	return calls, asValue
 }
+
+// fieldValues: the values that field `field` of the struct value v can hold, when v is a
+// local struct (built field by field or as a literal), the struct result of a module helper,
+// or a phi of those.  ok is false when v's origin is not understood.
+func fieldValues(v ssa.Value, field int, depth int) (vals []ssa.Value, ok bool) {
+	if depth > 4 {
+		return nil, false
+	}
+	switch x := v.(type) {
+	case *ssa.UnOp:
+		if x.Op != token.MUL {
+			return nil, false
+		}
+		al, isAlloc := x.X.(*ssa.Alloc)
+		if !isAlloc || al.Referrers() == nil {
+			return nil, false
+		}
+		for _, r := range *al.Referrers() {
+			switch y := r.(type) {
+			case *ssa.FieldAddr:
+				if y.Field != field || y.Referrers() == nil {
+					continue
+				}
+				for _, r2 := range *y.Referrers() {
+					if st, isSt := r2.(*ssa.Store); isSt && st.Addr == ssa.Value(y) {
+						vals = append(vals, st.Val)
+					}
+				}
+			case *ssa.Store:
+				if y.Addr == ssa.Value(al) {
+					if ld, isLd := y.Val.(*ssa.UnOp); isLd && ld.X == ssa.Value(al) {
+						continue // `return f, err` with a named result f re-assigns f to itself
+					}
+					sub, ok := fieldValues(y.Val, field, depth+1)
+					if !ok {
+						return nil, false
+					}
+					vals = append(vals, sub...)
+				}
+			}
+		}
+		return vals, true
+	case *ssa.Extract:
+		if call, isCall := x.Tuple.(*ssa.Call); isCall {
+			return fieldValuesOfResult(call, x.Index, field, depth)
+		}
+	case *ssa.Call:
+		return fieldValuesOfResult(x, 0, field, depth)
+	case *ssa.Phi:
+		for _, e := range x.Edges {
+			sub, ok := fieldValues(e, field, depth+1)
+			if !ok {
+				return nil, false
+			}
+			vals = append(vals, sub...)
+		}
+		return vals, true
+	}
+	return nil, false
+}
+
+func fieldValuesOfResult(call *ssa.Call, idx, field, depth int) ([]ssa.Value, bool) {
+	callee := call.Call.StaticCallee()
+	if callee == nil || !fnInModule(callee) || len(callee.Blocks) == 0 {
+		return nil, false
+	}
+	var vals []ssa.Value
+	for _, b := range callee.Blocks {
+		ret, ok := b.Instrs[len(b.Instrs)-1].(*ssa.Return)
+		if !ok {
+			continue
+		}
+		if idx >= len(ret.Results) {
+			return nil, false
+		}
+		sub, ok := fieldValues(ret.Results[idx], field, depth+1)
+		if !ok {
+			return nil, false
+		}
+		vals = append(vals, sub...)
+	}
+	return vals, true
+}
